@@ -1,7 +1,215 @@
-(* C18 -- placeholder; see proofs *)
-Require Import Coq.Lists.List.
+(* C18 -- the C API behaves like the C++ API on the same operations. Statements only; proofs in proofs/CApiProofs.v.
+   In the Manager model both interfaces drive the same operations.  The C interface has only the untyped, id-based
+   entry points (OAssign/ORemove with typed = false: assign by component id, default construction, then a write
+   through the returned pointer; removeComponent(entity, id) without the validity guard) and components described at
+   run time by a table of optional functions (Palette.pal_info for palette numbers >= 8, flag bits 1 create, 2 copy,
+   4 move, 8 move_constructor, 16 destroy, 32 default value).
+   res_rel R r r' : both runs succeed with R-related results, or both fail with the same error. *)
+Require Import Coq.Lists.List Coq.NArith.NArith Coq.ZArith.ZArith Coq.Arith.Arith Coq.Bool.Bool Coq.Sorting.Permutation.
 From Mustache Require Import Res Manager Palette.
+From Mustache.proofs Require Import CApiProofs.
 Import ListNotations.
-Example C18_placeholder : ci_mctor (pal_info 8 0) = false /\ ci_mctor (pal_info 8 8) = true.
-Proof. split; reflexivity. Qed.
-Print Assumptions C18_placeholder.
+
+(* ---- 1. assign with a value ---- *)
+(* EVERY state, both lock modes: for a component that carries a value, "assign by id + write through the pointer" and
+   the typed assign<T>(e, x) end in states equal in every field but the event log and return the same thing; when one
+   fails so does the other, with the same error *)
+Theorem C18_assign_value_agree : forall s tid h c x inf,
+  nth_error (cinfos s) c = Some inf -> ci_hasval inf = true ->
+  res_rel (fun rt ru => state_eq_but_log (fst rt) (fst ru) /\ snd rt = snd ru)
+    (step s (OAssign tid h c (AValue x) true)) (step s (OAssign tid h c (AValue x) false)).
+Proof. exact assign_value_agree. Qed.
+Print Assumptions C18_assign_value_agree.
+
+Theorem C18_state_eq_but_log_is_fieldwise : forall s1 s2,
+  state_eq_but_log s1 s2 <->
+  slots s1 = slots s2 /\ locs s1 = locs s2 /\ next_slot s1 = next_slot s2 /\ empty_slots s1 = empty_slots s2 /\
+  archs s1 = archs s2 /\ lockc s1 = lockc s2 /\ next_eid s1 = next_eid s2 /\ bufs s1 = bufs s2 /\ tmps s1 = tmps s2 /\
+  marked s1 = marked s2 /\ deps s1 = deps s2 /\ pool s1 = pool s2 /\ insts s1 = insts s2 /\ wv s1 = wv s2 /\
+  cached s1 = cached s2 /\ def_chunk s1 = def_chunk s2 /\ chunk_fns s1 = chunk_fns s2 /\ cinfos s1 = cinfos s2 /\
+  nthreads s1 = nthreads s2 /\ epoch s1 = epoch s2.
+Proof. exact state_eq_but_log_fields. Qed.
+Print Assumptions C18_state_eq_but_log_is_fieldwise.
+
+(* ---- 2. the events ---- *)
+(* unlocked (logs are newest first): the two logs hold the same events, except that the typed run ends with
+   Tev = [afterAssign; EvV] for the new cell p where the untyped run has X -- nothing, or Cev = [afterAssign; EvC] for the
+   same cell p -- at the point where externalMove's component loop reaches the new component.  So: the C path emits
+   EvC where the C++ path emits EvV, at the same place, only earlier; afterAssign fires before the value is written
+   instead of after; and when the description has no create function the C path emits no construction event at all. *)
+Theorem C18_assign_value_unlocked_events : forall s tid h c x inf,
+  lockc s = 0 -> nth_error (cinfos s) c = Some inf -> ci_hasval inf = true ->
+  res_rel (fun rt ru =>
+      state_eq_but_log (fst rt) (fst ru) /\ snd rt = snd ru /\
+      exists ai slot pre X L1,
+        log (fst rt) = Tev inf (PArch ai c slot) h ++ pre ++ L1 /\
+        log (fst ru) = pre ++ X ++ L1 /\
+        (X = [] \/ X = Cev inf (PArch ai c slot) h))
+    (step s (OAssign tid h c (AValue x) true)) (step s (OAssign tid h c (AValue x) false)).
+Proof. exact assign_value_unlocked. Qed.
+Print Assumptions C18_assign_value_unlocked_events.
+
+(* locked: same command, same temporary with the same value; exactly one event differs *)
+Theorem C18_assign_value_locked_events : forall s tid h c x inf k,
+  lockc s = S k -> nth_error (cinfos s) c = Some inf -> ci_hasval inf = true ->
+  res_rel (fun rt ru =>
+      state_eq_but_log (fst rt) (fst ru) /\ snd rt = snd ru /\
+      exists n, let p := PTmp (epoch s * 64 + tid) n in
+        log (fst rt) = (if ci_ev inf then [EvV (ci_pal inf) p] else []) ++ log s /\
+        log (fst ru) = (match ci_create inf with Some _ => if ci_ev inf then [EvC (ci_pal inf) p] else [] | None => [] end) ++ log s)
+    (step s (OAssign tid h c (AValue x) true)) (step s (OAssign tid h c (AValue x) false)).
+Proof. exact assign_value_locked. Qed.
+Print Assumptions C18_assign_value_locked_events.
+
+(* ---- removal ---- *)
+Theorem C18_remove_agree : forall s tid h c, is_valid s h = true \/ lockc s <> 0 ->
+  step s (ORemove tid h c false) = step s (ORemove tid h c true).
+Proof. exact remove_agree. Qed.
+Print Assumptions C18_remove_agree.
+
+(* FINDING (refutes agreement on handles the validity test rejects): removeComponent(world, entity, id) of the C API
+   trusts the id part of a stale handle; with the id recycled it strips the component from the LIVE entity that now owns
+   the id, where removeComponent<T>(stale) does nothing (c_api.cpp:275-277 -> entity_manager.cpp:187-205). *)
+Example C18_remove_stale_differs :
+  exists s, run_ops (init 1 [pal_info 0 0; pal_info 2 0]) [OCreate 0 3%N [] false; ODestroyNow 0 (0, 0)%N; OCreate 0 3%N [] false] = Ok s /\
+    lockc s = 0 /\ is_valid s (0, 0)%N = false /\ is_valid s (0, 1)%N = true /\
+    step s (ORemove 0 (0, 0)%N 1 true) = Ok (s, RNone) /\
+    out_of (step s (OHas (0, 1)%N 1)) = Some (RBool true) /\
+    exists s2, step s (ORemove 0 (0, 0)%N 1 false) = Ok (s2, RNone) /\ out_of (step s2 (OHas (0, 1)%N 1)) = Some (RBool false).
+Proof. exact remove_stale_differs. Qed.
+
+(* ---- 3. components described at run time ---- *)
+Theorem C18_described_fields : forall p f, 8 <= p ->
+  let i := pal_info p f in
+  ci_pal i = p /\ ci_ev i = true /\ ci_hasval i = true /\
+  ci_create i = (if Nat.testbit f 0 then Some (Z.of_nat (1000 + p)) else None) /\
+  ci_copy i = Nat.testbit f 1 /\ ci_move i = Nat.testbit f 2 /\ ci_mctor i = Nat.testbit f 3 /\
+  ci_destroy i = Nat.testbit f 4 /\
+  ci_default i = (if Nat.testbit f 5 then Some (Z.of_nat (2000 + p)) else None) /\
+  ci_aa i = false /\ ci_br i = false /\ ci_clone i = false.
+Proof. exact pal_info_fields. Qed.
+Print Assumptions C18_described_fields.
+
+(* a full table (with or without a default value) is lifecycle-equivalent to the instrumented static type, an empty
+   table to a trivially copyable static type *)
+Theorem C18_full_table_like_static : forall p, 8 <= p ->
+  lc_equiv (pal_info p 31) (inst_info p false) /\ lc_equiv (pal_info p 63) (inst_info p false).
+Proof. exact dyn_full_like_static. Qed.
+Print Assumptions C18_full_table_like_static.
+Theorem C18_empty_table_like_trivial : forall p, 8 <= p -> lc_equiv (pal_info p 0) (trivial_info p true).
+Proof. exact dyn_plain_like_trivial. Qed.
+Print Assumptions C18_empty_table_like_trivial.
+
+(* and lifecycle-equivalent descriptions construct and destroy alike in EVERY state: same cells written, same events
+   (EvC / afterAssign / EvD) at the same places, same errors *)
+Theorem C18_construct_default_equiv : forall s cis' ai c ci slot h u, Forall2 lc_equiv (cinfos s) cis' ->
+  construct_default (set_cinfos s cis') ai c ci slot h u = res_map (fun t => set_cinfos t cis') (construct_default s ai c ci slot h u).
+Proof. exact construct_default_equiv. Qed.
+Print Assumptions C18_construct_default_equiv.
+Theorem C18_call_destructor_equiv : forall s cis' ai slot, Forall2 lc_equiv (cinfos s) cis' ->
+  call_destructor (set_cinfos s cis') ai slot = res_map (fun t => set_cinfos t cis') (call_destructor s ai slot).
+Proof. exact call_destructor_equiv. Qed.
+Print Assumptions C18_call_destructor_equiv.
+
+(* ---- 4. job descriptors ---- *)
+Theorem C18_job_masks_order_irrelevant : forall j l',
+  Permutation (j_reqs j) l' -> NoDup (map req_id (j_reqs j)) ->
+  job_required_mask (with_reqs j l') = job_required_mask j /\ job_update_mask (with_reqs j l') = job_update_mask j.
+Proof. exact job_masks_order_irrelevant. Qed.
+Print Assumptions C18_job_masks_order_irrelevant.
+
+(* distinctness is needed: with an id listed twice the later request wins *)
+Example C18_job_masks_duplicate_ids :
+  let j := {| j_reqs := [(1, false, true); (1, false, false)]; j_check := 0%N; j_last := 0%N |} in
+  Permutation (j_reqs j) [(1, false, false); (1, false, true)] /\
+  job_required_mask j = 0%N /\ job_required_mask (with_reqs j [(1, false, false); (1, false, true)]) = 2%N.
+Proof. exact job_masks_duplicate_ids_order_matters. Qed.
+
+(* ---- non-vacuity: the hypotheses hold on concrete, non-trivial inputs ---- *)
+(* components: 0 trivial, 1 instrumented static (palette 2), 2 described with the full table and a default value *)
+Definition cis18 : list cinfo := [pal_info 0 0; pal_info 2 0; pal_info 8 63; pal_info 9 32].
+Definition base18 : res mst := run_ops (init 1 cis18) [OCreate 0 1%N [] false; OCreate 0 1%N [] false].
+
+(* unlocked, static instrumented component: EvV on one side, EvC on the other, same cell; everything else equal *)
+Example C18_example_unlocked :
+  exists s st su, base18 = Ok s /\ lockc s = 0 /\ option_map ci_hasval (nth_error (cinfos s) 1) = Some true /\
+    step s (OAssign 0 (0, 0)%N 1 (AValue 7) true) = Ok (st, RNone) /\
+    step s (OAssign 0 (0, 0)%N 1 (AValue 7) false) = Ok (su, RNone) /\
+    state_eq_but_log st su /\ log st = [EvV 2 (PArch 1 1 0)] /\ log su = [EvC 2 (PArch 1 1 0)] /\
+    out_of (step su (OGetConst (0, 0)%N 1)) = Some (RCell true (Some 7%Z)).
+Proof.
+  eexists. eexists. eexists. split; [vm_compute; reflexivity|]. split; [reflexivity|]. split; [reflexivity|].
+  split; [vm_compute; reflexivity|]. split; [vm_compute; reflexivity|]. split; [vm_compute; reflexivity|].
+  split; [reflexivity|]. split; reflexivity.
+Qed.
+
+(* unlocked, described component with create/destroy/default: same picture *)
+Example C18_example_unlocked_described :
+  exists s st su, base18 = Ok s /\
+    step s (OAssign 0 (1, 0)%N 2 (AValue 7) true) = Ok (st, RNone) /\
+    step s (OAssign 0 (1, 0)%N 2 (AValue 7) false) = Ok (su, RNone) /\
+    state_eq_but_log st su /\ log st = [EvV 8 (PArch 1 2 0)] /\ log su = [EvC 8 (PArch 1 2 0)].
+Proof.
+  eexists. eexists. eexists. split; [vm_compute; reflexivity|]. split; [vm_compute; reflexivity|].
+  split; [vm_compute; reflexivity|]. split; [vm_compute; reflexivity|]. split; reflexivity.
+Qed.
+
+(* a described component with only a default value (flags 32): the C path emits no construction event *)
+Example C18_example_unlocked_default_only :
+  exists s st su, base18 = Ok s /\
+    step s (OAssign 0 (1, 0)%N 3 (AValue 7) true) = Ok (st, RNone) /\
+    step s (OAssign 0 (1, 0)%N 3 (AValue 7) false) = Ok (su, RNone) /\
+    state_eq_but_log st su /\ log st = [EvV 9 (PArch 1 3 0)] /\ log su = [].
+Proof.
+  eexists. eexists. eexists. split; [vm_compute; reflexivity|]. split; [vm_compute; reflexivity|].
+  split; [vm_compute; reflexivity|]. split; [vm_compute; reflexivity|]. split; reflexivity.
+Qed.
+
+(* locked *)
+Example C18_example_locked :
+  exists s0 s st su, base18 = Ok s0 /\ step s0 OLock = Ok (s, RNone) /\ lockc s = 1 /\
+    step s (OAssign 0 (0, 0)%N 1 (AValue 7) true) = Ok (st, RNone) /\
+    step s (OAssign 0 (0, 0)%N 1 (AValue 7) false) = Ok (su, RNone) /\
+    state_eq_but_log st su /\ tmps st = [[Some 7%Z]] /\ log st = [EvV 2 (PTmp 0 0)] /\ log su = [EvC 2 (PTmp 0 0)].
+Proof.
+  eexists. eexists. eexists. eexists. split; [vm_compute; reflexivity|]. split; [vm_compute; reflexivity|]. split; [reflexivity|].
+  split; [vm_compute; reflexivity|]. split; [vm_compute; reflexivity|]. split; [vm_compute; reflexivity|].
+  split; [reflexivity|]. split; reflexivity.
+Qed.
+
+(* removal through a valid handle *)
+Example C18_example_remove :
+  exists s, base18 = Ok s /\ is_valid s (1, 0)%N = true /\
+    exists s1, step s (ORemove 0 (1, 0)%N 0 false) = Ok (s1, RNone) /\ step s (ORemove 0 (1, 0)%N 0 true) = Ok (s1, RNone) /\
+      out_of (step s1 (OHas (1, 0)%N 0)) = Some (RBool false).
+Proof.
+  eexists. split; [vm_compute; reflexivity|]. split; [vm_compute; reflexivity|].
+  eexists. split; [vm_compute; reflexivity|]. split; vm_compute; reflexivity.
+Qed.
+
+(* lifecycle-equivalent description lists *)
+Example C18_example_equiv : Forall2 lc_equiv [pal_info 0 0; pal_info 8 63; pal_info 9 0] [pal_info 0 0; inst_info 8 false; trivial_info 9 true].
+Proof.
+  repeat constructor; try reflexivity; try (intros; discriminate); try (intros H; exfalso; apply H; reflexivity).
+Qed.
+
+(* ... but NOT clonable: the C table has no clone function (ci_clone = false for every flag set), so cloning an entity
+   that carries a described component calls an empty function, where the static type clones *)
+Example C18_described_not_clonable :
+  exists s s1 s2, base18 = Ok s /\
+    step s (OAssign 0 (0, 0)%N 1 (AValue 7) true) = Ok (s1, RNone) /\ (exists d, out_of (step s1 (OClone (0, 0)%N)) = Some (RHandle d)) /\
+    step s (OAssign 0 (1, 0)%N 2 (AValue 7) false) = Ok (s2, RNone) /\ step s2 (OClone (1, 0)%N) = Err EmptyFunction.
+Proof.
+  eexists. eexists. eexists. split; [vm_compute; reflexivity|]. split; [vm_compute; reflexivity|].
+  split; [eexists; vm_compute; reflexivity|]. split; [vm_compute; reflexivity|]. vm_compute; reflexivity.
+Qed.
+
+(* job requests with distinct ids, listed in two orders *)
+Example C18_example_job :
+  let j := {| j_reqs := [(0, true, true); (2, false, false); (1, false, true)]; j_check := 0%N; j_last := 0%N |} in
+  NoDup (map req_id (j_reqs j)) /\ Permutation (j_reqs j) [(1, false, true); (0, true, true); (2, false, false)] /\
+  job_required_mask j = 3%N /\ job_update_mask j = 6%N.
+Proof.
+  cbn. split; [repeat constructor; simpl; intuition discriminate|]. split; [|split; reflexivity].
+  apply Permutation_sym. apply (Permutation_cons_app [(0, true, true); (2, false, false)] []). apply Permutation_refl.
+Qed.
